@@ -85,6 +85,19 @@ def defaults(h):
     h.oblige("RETRY_CONNECTED: no retry, one second", And(h.attr(pol, "max_retries") == 0, h.eq(h.attr(pol, "max_lifetime"), 1.0)))
 
 
+def run_cycle(h, it2, node, env, name):
+    """Execute the body of a `while True` task loop once; obligation `name`: control comes back to the loop head."""
+    from pyvc.interp import _Break, _Return
+    from pyvc.values import PyExc
+    try:
+        it2.exec_block(node.body, env)
+    except (PyExc, _Break, _Return) as e:
+        what = e.value.cls.name if isinstance(e, PyExc) else type(e).__name__.strip("_").lower()
+        h.oblige(name, False, kind="loop-preserve", detail=f"the loop body is left by {what}")
+        raise
+    h.oblige(name, True, kind="loop-preserve")
+
+
 def install_deadline_loop(h, w, F, T, ev):
     """Loop contracts for the pattern
            while True:
@@ -137,7 +150,8 @@ def install_deadline_loop(h, w, F, T, ev):
         if state["outer"] == 0:
             state["outer"] = 1
             ghost["L"] = aio.now(it2)
-            it2.exec_block(node.body, env)
+            run_cycle(h, it2, node, env, "a monitoring cycle always ends back at the loop head: expiry is handled inside the loop, nothing "
+                      "(no exception, break or return) ends the monitoring task except cancellation")
             raise LoopCut()
         return None
 
@@ -229,7 +243,7 @@ def heartbeat_loop(h):
             state["n"] = 1
             t["start"] = aio.now(it2)
             t["connected"] = sock.is_connected
-            it2.exec_block(node.body, env)
+            run_cycle(h, it2, node, env, "a heartbeat cycle always ends back at the loop head (nothing but cancellation ends the heartbeat task)")
             t["end"] = aio.now(it2)
             raise LoopCut()
         return None
